@@ -5,6 +5,7 @@ import (
 	utils "github.com/comdex-official/comdex/types"
 	assettypes "github.com/comdex-official/comdex/x/asset/types"
 	auctionsV2types "github.com/comdex-official/comdex/x/auctionsV2/types"
+	collectortypes "github.com/comdex-official/comdex/x/collector/types"
 	lendtypes "github.com/comdex-official/comdex/x/lend/types"
 	"github.com/comdex-official/comdex/x/liquidationsV2/types"
 	rewardstypes "github.com/comdex-official/comdex/x/rewards/types"
@@ -529,12 +530,12 @@ func (k Keeper) CheckStatsForSurplusAndDebt(ctx sdk.Context, appID, assetID uint
 		amount := collector.LotSize
 		collateralToken, debtToken := k.SurplusTokenAmount(ctx, collateralAssetID, debtAssetID, amount)
 
-		// check to see if we have amount in collector
-		_, err := k.collector.GetAmountFromCollector(ctx, appID, assetID, collateralToken.Amount)
-		if err != nil {
-			return err
+		// check to see if we have amount in collector: the lot stays there (and in the net fees) until the auction
+		// closes, CloseEnglishAuction takes it from the collector and pays the winner
+		if !netFeeCollectedData.NetFeesCollected.Sub(collateralToken.Amount).GT(sdk.ZeroInt()) {
+			return collectortypes.ErrorRequestedAmtExceedsCollectedFee
 		}
-		err = k.CreateLockedVault(ctx, 0, 0, "", collateralToken, debtToken, collateralToken, debtToken, sdk.ZeroDec(), appID, false, "", "", sdk.ZeroInt(), sdk.ZeroInt(), "surplus", false, false, collateralAssetID, debtAssetID)
+		err := k.CreateLockedVault(ctx, 0, 0, "", collateralToken, debtToken, collateralToken, debtToken, sdk.ZeroDec(), appID, false, "", "", sdk.ZeroInt(), sdk.ZeroInt(), "surplus", false, false, collateralAssetID, debtAssetID)
 		if err != nil {
 			return err
 		}
